@@ -71,6 +71,9 @@ def budget(draw, min_sources=1, max_sources=4, allow_broken=True, rules_kinds=('
         extra = [{'name': f'Known {w.title()}', 'match': ['match', 'contains', None, w], 'category': draw(st.sampled_from(R.CATEGORIES)), 'subcategory': draw(st.sampled_from(R.SUBCATS)),
                   'merchant': None, 'priority': None, 'tags': draw(st.lists(st.sampled_from(['recurring', 'income', 'transfer']), max_size=1)), 'lets': [], 'fields': []}
                  for w in draw(st.lists(st.sampled_from(words), min_size=1, max_size=3, unique=True))]
+        # one merchant name, two categories: two rules share a [name] (e.g. Costco fuel vs Costco groceries) - category totals are sums over transactions
+        if len(extra) >= 2 and draw(st.integers(0, 3)) > 0:
+            extra[1] = dict(extra[1], name=extra[0]['name'], category=[c for c in R.CATEGORIES if c != extra[0]['category']][0], subcategory='Other Sub')
         # rules deciding on what only one row of a repeated charge carries: its extra columns and its location
         customs = sorted({(c, v.strip()) for s_ in sources for r in s_['rows'] for c, v in r['customs'].items() if v.strip() and c in lang.FIELD_KEYS and '"' not in v and '\\' not in v})
         locs = sorted({r['loc'].strip() for s_ in sources for r in s_['rows'] if 'location' in s_['layout']['cols'] and r['loc'].strip()})
